@@ -520,3 +520,77 @@ func VP_C15_CatchupAtInitialHeight() {
 	vp.Assert(cs.Step > cstypes.RoundStepNewHeight, "C15.catchup.logged-timeout-of-the-unfinished-height-took-effect")
 	vp.Reach("replayed")
 }
+
+// C15-H4b: damage in the middle of the unfinished height (one byte of the checksum or of the payload of
+// a record that is followed by intact records; the length field is untouched, so framing stays aligned).
+// The real OnStart backs the file up and repairs it: what a reader gets afterwards is exactly the
+// records before the damaged one - nothing from behind the hole.
+func VP_C15_RepairMidCorruption() {
+	vp.Opt("goroutines", 64)
+	dir := vp.TempDir()
+	walFile := dir + "/wal"
+	w0, err := NewWAL(walFile, autofile.GroupCheckDuration(time.Hour))
+	if err != nil {
+		panic(err)
+	}
+	if err := w0.Start(); err != nil {
+		panic(err)
+	}
+	for r := int32(1); r <= 4; r++ {
+		if err := w0.WriteSync(tmtypesEventRound(r)); err != nil {
+			panic(err)
+		}
+	}
+	w0.Stop()
+	w0.Wait()
+	raw, err := os.ReadFile(walFile)
+	if err != nil {
+		panic(err)
+	}
+	// record k starts at starts[k]: crc (4) | length (4) | payload; record 0 is the start-up marker
+	var starts []int
+	for off := 0; off+8 <= len(raw); {
+		starts = append(starts, off)
+		off += 8 + int(binary.BigEndian.Uint32(raw[off+4:off+8]))
+	}
+	if len(starts) != 5 {
+		panic("expected the start-up marker and four records")
+	}
+	damaged := 1 + vp.Choice("damaged-record", 3) // one of our first three records (intact records follow)
+	pos := starts[damaged]                         // first checksum byte
+	if vp.Bool("damage-in-payload") {
+		pos = starts[damaged] + 8 + 1
+	}
+	raw[pos] ^= 0x40
+	if err := os.WriteFile(walFile, raw, 0o600); err != nil {
+		panic(err)
+	}
+	cs, _ := vpBareState()
+	cs.config.SetWalFile(walFile)
+	cs.timeoutTicker = &vpTicker{w: &vpWorld{}}
+	if err := cs.evsw.Start(); err != nil {
+		panic(err)
+	}
+	err = cs.OnStart()
+	vp.Assert(err != nil && !IsDataCorruptionError(err), "C15.repair.restart-gets-past-the-damaged-record")
+	vp.Reach("restarted")
+	cs.wal.Stop()
+	cs.wal.Wait()
+	r, err := NewWAL(walFile, autofile.GroupCheckDuration(time.Hour))
+	if err != nil {
+		panic(err)
+	}
+	if err := r.Start(); err != nil {
+		panic(err)
+	}
+	var got []int32
+	for _, m := range vpReadAll(r) {
+		if e, ok := m.(types.EventDataRoundState); ok {
+			got = append(got, e.Round)
+		}
+	}
+	vp.Assert(len(got) == damaged-1, "C15.repair.only-the-decodable-prefix-survives(no-records-from-behind-the-hole)")
+	for i := range got {
+		vp.Assert(got[i] == int32(i+1), "C15.repair.records-come-back-in-order")
+	}
+}
